@@ -43,6 +43,10 @@ func (bc *Context) buildLayers(ctx context.Context) ([]v1.Layer, error) {
 		return nil, fmt.Errorf("layering with %q is unsupported", "baseimage")
 	}
 
+	if budget := bc.ic.Layering.Budget; budget < 0 {
+		return nil, fmt.Errorf("layering budget must not be negative, got %d", budget)
+	}
+
 	// Build a single fs.FS, the normal way (this writes to bc.fs).
 	pkgs, err := bc.buildImage(ctx)
 	if err != nil {
@@ -171,7 +175,9 @@ func groupByOriginAndSize(pkgs []*apk.Package, budget int) ([]*group, error) {
 
 	// Now we need to pick the best groups to keep.
 	// First pass we'll set the size of each group to the sum of the installed size of all its packages.
-	groups := make([]*group, 0, budget)
+	// Size the slice by what we have, not by the configured budget (which is
+	// unvalidated input and may be negative or absurdly large).
+	groups := make([]*group, 0, len(byOrigin))
 	seen := map[*group]struct{}{}
 	for v := range maps.Values(byOrigin) {
 		if _, ok := seen[v]; ok {
